@@ -42,6 +42,27 @@ CHECKS = {
             "parser and by R-SIEVE; trees are compared with string values decoded; the second "
             "serialisation must equal the first byte for byte.",
             "Trusted: R-SIEVE decoding rules. Tagged arguments compared as unordered groups."),
+    "C07": ("exploration", "DESIGN.md §2 C07",
+            "runtime monitoring: independent pre-order gate walk over every accepted tree "
+            "with a frozen construct->extension table; exact-message monitor on "
+            "require-reduced valid scripts",
+            "Accept direction: every accepted execution (irregular inputs included) is walked "
+            "by the harness; each extension-bound command/tag/match type must have been "
+            "preceded by a require naming it. Removal direction: for valid scripts (accepted "
+            "by parser and reference model) each needed extension is removed and the exact "
+            "message naming the first missing extension in script order is demanded.",
+            "Trusted: frozen extension table in rv/rsieve.py; first-missing extension computed "
+            "by the reference judge."),
+    "C18": ("exploration", "DESIGN.md §2 C18",
+            "runtime monitoring: constructed-offender monitor (expected line/column/length "
+            "known by construction) + suffix-independence metamorphic monitor",
+            "Offending tokens of the property's first category are inserted at gaps of valid "
+            "multi-line scripts (comments and multi-byte text before them, LF/CRLF) where they "
+            "are invalid by construction; error/error_pos must equal the constructed position "
+            "and be identical for 5 different suffixes. For single-edit mutants the weaker "
+            "clause (not before the edit, independent of later text) is monitored.",
+            "x is the first invalidating token by construction (prefix is a prefix of a script "
+            "accepted by both parser and R-SIEVE)."),
 }
 
 
